@@ -184,6 +184,22 @@ def run(res, tier, build_ok):
     g.out_blocks()
     reqs = []
 
+    from lib import devices
+
+    def via_facade(kind, what, call, expected, replay):
+        """the same command through the facade (what an application calls): constructible there too, same list"""
+        fac, dev = devices.attach(spc)
+        res.count("through the facade: " + kind.split(" ")[0])
+        try:
+            cmd = call(fac)
+        except Exception as e:
+            res.violation("facade cmd=%s raises=%s" % (kind, type(e).__name__),
+                          "%s cannot be built through the facade for a valid parameter dictionary: %s (%s)" % (what, type(e).__name__, str(e)[:100]), replay)
+            return
+        if bytes(cmd.dataout) != expected or len(dev.calls) != 1 or dev.calls[0][2] is not cmd.dataout:
+            res.violation("facade cmd=%s list differs" % kind, "%s through the facade: the parameter list handed to the device differs from the standard's layout" % what,
+                          dict(replay, dataout=bytes(cmd.dataout).hex()[:1200], expected=expected.hex()[:1200]))
+
     def judge(kind, what, cmd_fn, expected, pll, replay, model_line):
         res.case((kind, expected), None)
         res.count("command " + kind)
@@ -217,6 +233,9 @@ def run(res, tier, build_ok):
                 kind = "modeselect10" if ten else "modeselect6"
                 judge(kind, "MODE SELECT(%d)" % (10 if ten else 6), lambda: cls(op, copy.deepcopy(d), pf=pf, sp=sp), exp, PLL[kind],
                       {"command": kind, "data": str(d)[:800]}, "mar %s %s" % ("modesense10" if ten else "modesense6", formats.to_text(d)))
+                if i % 4 == 0:
+                    via_facade(kind, "MODE SELECT(%d)" % (10 if ten else 6),
+                               lambda f: (f.modeselect10 if ten else f.modeselect6)(copy.deepcopy(d), pf=pf, sp=sp), exp, {"command": kind, "data": str(d)[:800]})
             kindp, d, exp = g.prout()
             op = spc.PERSISTENT_RESERVE_OUT
             sa = {"basic": g.rng.choice([op.serviceaction.REGISTER, op.serviceaction.RESERVE, op.serviceaction.RELEASE, op.serviceaction.CLEAR,
@@ -227,6 +246,9 @@ def run(res, tier, build_ok):
                   lambda: PRO(op, sa, scope=scope, pr_type=ty, **copy.deepcopy(d)), exp, PLL["prout"],
                   {"command": "prout", "service_action": sa, "data": str(d)[:800]},
                   "mar prout%d %s" % ({"basic": 0, "spec": 1, "ram": 2}[kindp], formats.to_text(d)))
+            via_facade("prout " + kindp, "PERSISTENT RESERVE OUT (%s list)" % kindp,
+                       lambda f: f.persistentreserveout(sa, scope=scope, pr_type=ty, **copy.deepcopy(d)), exp,
+                       {"command": "prout", "service_action": sa, "data": str(d)[:800]})
             for five in (False, True):
                 kw, exp, model = g.xcopy(five)
                 cls = X5 if five else X4
@@ -235,6 +257,10 @@ def run(res, tier, build_ok):
                       lambda: cls(opx, **copy.deepcopy(kw)), exp, PLL["xcopy"],
                       {"command": "xcopy%d" % (5 if five else 4), "kwargs": str(kw)[:1200]},
                       "mar xcopy%d %s" % (5 if five else 4, formats.to_text(model)))
+                if i % 4 == 0:
+                    via_facade("xcopy lid%d" % (4 if five else 1), "EXTENDED COPY(LID%d)" % (4 if five else 1),
+                               lambda f: (f.extendedcopy5 if five else f.extendedcopy4)(**copy.deepcopy(kw)), exp,
+                               {"command": "xcopy%d" % (5 if five else 4), "kwargs": str(kw)[:1200]})
         # ---- read-modify-write: the dictionary decoded from a MODE SENSE answer that carries block descriptors, handed to
         #      MODE SELECT.  Whatever the library does with the block descriptors, the list must be walkable: BLOCK
         #      DESCRIPTOR LENGTH equals the block-descriptor bytes that follow the header, then the page, then nothing.
